@@ -850,7 +850,8 @@ def _assertgate(ctx, cfg, prog, mod):
                    site='%s:%d' % (gb.file, gb.line))
     ctx.ob('ASSERTGATE', 'scan', cfg, True, 'freshness-asserting helpers: %s; call sites examined: %d' % (
         sorted(a.rsplit('::', 1)[-1] for a in asserting), n))
-    ctx.floor('freshness-asserting helpers', 1, len(asserting), cfg)
+    # no floor: a tree in which no helper asserts freshness any more (the assert replaced by the typed check) has nothing
+    # to gate; the rule's ability to see such helpers is exercised by the seeded change C19-stale-hull-debug-assert (re-run by the thorough tier)
 
 
 # ------------------------------------------------------------------------------------------ FINITE
